@@ -21,7 +21,7 @@ CLAUSES = {
     "C17": ("c17_scoped", "c17_observed", "c17_observed_stable", "c17_raised"),
 }
 ACTIONS = ["StartTestRun", "StopTestRun", "Tags", "Time", "StartTest", "Outcome", "StopTest", "SkipAdd", "SkipStop",
-           "Stop", "Done", "Progress", "SetFailfast"]
+           "Stop", "Done", "Progress", "SetFailfast", "SubTest"]
 BAD = ("error", "failure", "uxsuccess")
 OWN_LEAVES = ("TT", "Text", "ByTest")
 
@@ -189,11 +189,12 @@ def replay(beh, flavour, clauses=None):
                 # text-contains checks of the documented degradation
                 for e in got:
                     if e["p"] == "synexc":
-                        need = [] if c.get("form") == "det0" else [rt.DETAIL_TEXT] + ([rt.REASON_IN_DETAILS] if c.get("form") == "detr" else [])
+                        # ... the detail text of THIS call (the details current when it was made)
+                        need = [] if c.get("form") == "det0" else [rt.DETAIL_TEXT + rt.tok(c.get("x"))] + ([rt.REASON_IN_DETAILS + rt.tok(c.get("x"))] if c.get("form") == "detr" else [])
                         if not all(x in e["text"] for x in need):
                             out.append(dict(clause="c08_degrade_text", step=step, node=i, expected=need, observed=e["text"]))
                     elif e["p"] == "synreason":
-                        ok = e["text"] == rt.REASON_IN_DETAILS if c.get("form") == "detr" else rt.DETAIL_TEXT in e["text"]
+                        ok = e["text"] == rt.REASON_IN_DETAILS + rt.tok(c.get("x")) if c.get("form") == "detr" else rt.DETAIL_TEXT + rt.tok(c.get("x")) in e["text"]
                         if not ok:
                             out.append(dict(clause="c08_degrade_text", step=step, node=i, expected=c.get("form"), observed=e["text"]))
                 # tags observed for the test at its outcome
@@ -228,7 +229,9 @@ def replay(beh, flavour, clauses=None):
 # ---------------------------------------------------------------------------------------------------------
 def call_shape(c):
     if c["op"] == "add":
-        return "add/%s/%s" % (c["kind"], c["form"])
+        return "add/%s/%s%s" % (c["kind"], c["form"], "/same-dict" if c.get("id") == "reuse" else "")
+    if c["op"] == "subtest":
+        return "addSubTest/%s" % c["kind"]
     if c["op"] == "setff":
         return "setff/%s" % c["b"]
     return c["op"]
@@ -599,15 +602,15 @@ SIMT = dict(simulate=dict(num=1500, depth=40), workers=8)
 # (config, kinds of test objects per behaviour | NOREPLAY | name of the invariant/property TLC must report violated, TLC options)
 PLANS = {
     "C08": {
-        "quick": [("rs_mcAq.cfg", NOREPLAY, {}), ("rs_expA.cfg", all3, {}), ("rs_expA0.cfg", tc_ph, {}), ("rs_expA1.cfg", tc_ph, {}), ("rs_expB.cfg", tc_ph, {}), ("rs_sim.cfg", tc_ph, SIMQ)],
+        "quick": [("rs_mcAq.cfg", NOREPLAY, {}), ("rs_expA.cfg", all3, {}), ("rs_expA0.cfg", tc_ph, {}), ("rs_expA1.cfg", tc_ph, {}), ("rs_expB.cfg", tc_ph, {}), ("rs_expD.cfg", tc_ph, {}), ("rs_sim.cfg", tc_ph, SIMQ)],
         "thorough": [("rs_mcA3.cfg", NOREPLAY, {}), ("rs_mcA3all.cfg", NOREPLAY, {}), ("rs_expA.cfg", every3, {}), ("rs_expA0.cfg", every3, {}), ("rs_expA1.cfg", tc_ph, {}), ("rs_expB3.cfg", tc_ph, {}),
-                     ("rs_expB2.cfg", tc_ph, {}), ("rs_sim.cfg", tc_ph, SIMT)],
+                     ("rs_expB2.cfg", tc_ph, {}), ("rs_expD.cfg", tc_ph, {}), ("rs_expD3.cfg", tc_ph, {}), ("rs_sim.cfg", tc_ph, SIMT)],
     },
     "C04": {
         "quick": [("rs_codedFF.cfg", "FailFastStops", {}), ("rs_expC1.cfg", tc_only, {}), ("rs_expC2.cfg", tc_only, {}),
-                  ("rs_expC3.cfg", tc_only, {}), ("rs_expP.cfg", tc_only, {}), ("rs_expP1.cfg", tc_only, {}), ("rs_simFF.cfg", tc_only, SIMQ)],
+                  ("rs_expC3.cfg", tc_only, {}), ("rs_expP.cfg", tc_only, {}), ("rs_expP1.cfg", tc_only, {}), ("rs_expS.cfg", tc_only, {}), ("rs_simFF.cfg", tc_only, SIMQ)],
         "thorough": [("rs_codedFF.cfg", "FailFastStops", {}), ("rs_mcC.cfg", NOREPLAY, {}), ("rs_expC1.cfg", tc_only, {}),
-                     ("rs_expC2.cfg", tc_only, {}), ("rs_expC3.cfg", tc_only, {}), ("rs_expC4.cfg", tc_only, {}), ("rs_expP.cfg", tc_only, {}), ("rs_expP1.cfg", tc_only, {}),
+                     ("rs_expC2.cfg", tc_only, {}), ("rs_expC3.cfg", tc_only, {}), ("rs_expC4.cfg", tc_only, {}), ("rs_expP.cfg", tc_only, {}), ("rs_expP1.cfg", tc_only, {}), ("rs_expS.cfg", tc_only, {}), ("rs_expS2.cfg", tc_only, {}),
                      ("rs_simFF.cfg", tc_only, SIMT), ("rs_sim13.cfg", tc_only, SIMT)],
     },
     "C17": {
@@ -622,7 +625,7 @@ PLANS = {
 }
 NEEDED = {
     "C08": ["StartTestRun", "StopTestRun", "StartTest", "Outcome", "StopTest", "Time", "Done", "Progress", "Tags"],
-    "C04": ["StartTestRun", "StopTestRun", "StartTest", "Outcome", "StopTest", "Stop", "SetFailfast"],
+    "C04": ["StartTestRun", "StopTestRun", "StartTest", "Outcome", "StopTest", "Stop", "SetFailfast", "SubTest"],
     "C17": ["StartTestRun", "StopTestRun", "StartTest", "Outcome", "StopTest", "Tags", "SkipAdd", "SkipStop"],
 }
 
